@@ -37,6 +37,7 @@ import (
 
 func main() {
 	hx.Commands["lexreplay"] = lexReplay
+	hx.Commands["lexwork"] = lexWorker
 	hx.Commands["parse"] = parseSupervisor
 	hx.Commands["parsework"] = parseWorker
 	hx.Commands["pumpreplay"] = pumpReplay
@@ -118,89 +119,82 @@ type Run struct {
 	Err     []TTok   `json:"err"`     // the ParseError token (0 or 1 element)
 }
 
-func lexReplay(args []string) int {
-	fs := flag.NewFlagSet("lexreplay", flag.ExitOnError)
-	tracesPath := fs.String("traces", "", "write trace records of cases that differ from the prediction (and every sample-th other)")
-	sample := fs.Int("sample", 0, "also record every n-th agreeing case (0 = none)")
-	prefix := fs.String("prefix", "lx", "case id prefix")
-	fs.Parse(args) // nolint:errcheck
-	out := hx.NewOut()
-	defer out.Close()
-	var tw *json.Encoder
-	if *tracesPath != "" {
-		f, err := os.Create(*tracesPath)
-		if err != nil {
-			fmt.Fprintln(os.Stderr, err)
-			return 2
+// lexWorker: stdin behaviours of Lexer.tla (each prefixed by its case id), stdout one workOut line per behaviour.
+type lexIn struct {
+	ID     string       `json:"id"`
+	Sample bool         `json:"sample"`
+	B      lexBehaviour `json:"b"`
+}
+
+func lexCase(li lexIn) workOut {
+	b := li.B
+	src := vchars.Concretize(b.Input)
+	post := 0
+	for i, t := range b.Tokens { // pulls after the first EOF, as predicted
+		if t.Type == "EOF" {
+			post = len(b.Tokens) - 1 - i
+			break
 		}
-		defer f.Close()
-		bw := bufio.NewWriter(f)
-		defer bw.Flush()
-		tw = json.NewEncoder(bw)
 	}
-	n := 0
-	err := hx.Lines(func(line []byte) error {
-		var b lexBehaviour
-		if err := json.Unmarshal(line, &b); err != nil {
-			return err
+	real, terminated := lexAll(src, post)
+	res := hx.CaseResult{ID: li.ID, Input: map[string]any{"chunks": b.Input, "text": src}}
+	var types []string
+	same := len(real) == len(b.Tokens) && terminated
+	main := true // still before / at the first EOF
+	for i := range real {
+		rt := tokOf(real[i])
+		types = append(types, rt.Type)
+		if i < len(b.Tokens) {
+			e := b.Tokens[i]
+			if rt != e {
+				same = false
+				what := "token"
+				if !main {
+					what = "token-after-eof"
+				}
+				if len(res.Drift) < 4 {
+					res.Drift = append(res.Drift, map[string]any{"obs": what, "index": i, "expected": e, "got": rt})
+				}
+			}
 		}
-		n++
-		id := fmt.Sprintf("%s%d", *prefix, n)
-		src := vchars.Concretize(b.Input)
-		post := 0
-		for i, t := range b.Tokens { // pulls after the first EOF, as predicted
-			if t.Type == "EOF" {
-				post = len(b.Tokens) - 1 - i
+		if rt.Type == "EOF" {
+			main = false
+		}
+	}
+	if !terminated {
+		res.Mismatch = append(res.Mismatch, map[string]any{"obs": "lexer-no-eof", "tokens": len(real)})
+	}
+	if !same && len(res.Drift) == 0 {
+		res.Drift = append(res.Drift, map[string]any{"obs": "token-count", "expected": len(b.Tokens), "got": len(real)})
+	}
+	res.Observed = map[string]any{"types": types}
+	res.Key = "lex:" + strings.Join(types, " ")
+	res.Class = map[string]any{"stage": "lex", "agrees": same}
+	res.Validated = same // equal to a stream TLC proved located: nothing more to decide
+	wo := workOut{ID: li.ID, Results: []hx.CaseResult{res}}
+	if !same || li.Sample {
+		tr := Trace{ID: li.ID, Lexed: true, Input: vchars.Symbols(src), Toks: []TTok{}, Runs: []Run{}}
+		for _, t := range real {
+			tr.Toks = append(tr.Toks, ttokOf(t))
+			if t.Type == token.EOF {
 				break
 			}
 		}
-		real, terminated := lexAll(src, post)
-		res := hx.CaseResult{ID: id, Input: map[string]any{"chunks": b.Input, "text": src}}
-		var types []string
-		same := len(real) == len(b.Tokens) && terminated
-		main := true // still before / at the first EOF
-		for i := range real {
-			rt := tokOf(real[i])
-			types = append(types, rt.Type)
-			if i < len(b.Tokens) {
-				e := b.Tokens[i]
-				if rt != e {
-					same = false
-					what := "token"
-					if !main {
-						what = "token-after-eof"
-					}
-					if len(res.Drift) < 4 {
-						res.Drift = append(res.Drift, map[string]any{"obs": what, "index": i, "expected": e, "got": rt})
-					}
-				}
-			}
-			if rt.Type == "EOF" {
-				main = false
-			}
+		wo.Traces = append(wo.Traces, tr)
+	}
+	return wo
+}
+
+func lexWorker(args []string) int {
+	w := bufio.NewWriterSize(os.Stdout, 1<<16)
+	enc := json.NewEncoder(w)
+	err := hx.Lines(func(line []byte) error {
+		var li lexIn
+		if err := json.Unmarshal(line, &li); err != nil {
+			return err
 		}
-		if !terminated {
-			res.Mismatch = append(res.Mismatch, map[string]any{"obs": "lexer-no-eof", "tokens": len(real)})
-		}
-		if !same && len(res.Drift) == 0 {
-			res.Drift = append(res.Drift, map[string]any{"obs": "token-count", "expected": len(b.Tokens), "got": len(real)})
-		}
-		res.Observed = map[string]any{"types": types}
-		res.Key = "lex:" + strings.Join(types, " ")
-		res.Class = map[string]any{"stage": "lex", "agrees": same}
-		res.Validated = same // equal to a stream TLC proved located: nothing more to decide
-		if tw != nil && (!same || (*sample > 0 && n%*sample == 0)) {
-			tr := Trace{ID: id, Lexed: true, Input: vchars.Symbols(src), Toks: []TTok{}, Runs: []Run{}}
-			for _, t := range real {
-				tr.Toks = append(tr.Toks, ttokOf(t))
-				if t.Type == token.EOF {
-					break
-				}
-			}
-			tw.Encode(tr) // nolint:errcheck
-		}
-		out.Write(res)
-		return nil
+		enc.Encode(lexCase(li)) // nolint:errcheck
+		return w.Flush()
 	})
 	if err != nil {
 		fmt.Fprintln(os.Stderr, err)
@@ -209,14 +203,45 @@ func lexReplay(args []string) int {
 	return 0
 }
 
+// lexReplay: stdin behaviours of Lexer.tla; each is lexed by the real lexer in a watched child (a reader that
+// never returns is the observation hang) and compared with the prediction.
+func lexReplay(args []string) int {
+	fs := flag.NewFlagSet("lexreplay", flag.ExitOnError)
+	tracesPath := fs.String("traces", "", "write trace records of cases that differ from the prediction (and every sample-th other)")
+	sample := fs.Int("sample", 0, "also record every n-th agreeing case (0 = none)")
+	prefix := fs.String("prefix", "lx", "case id prefix")
+	watchdog := fs.Duration("watchdog", 10*time.Second, "per-input budget of the child")
+	fs.Parse(args) // nolint:errcheck
+	var inputs [][]byte
+	n := 0
+	if err := hx.Lines(func(line []byte) error {
+		n++
+		var b lexBehaviour
+		if err := json.Unmarshal(line, &b); err != nil {
+			return err
+		}
+		j, _ := json.Marshal(lexIn{ID: fmt.Sprintf("%s%d", *prefix, n), Sample: *sample > 0 && n%*sample == 0, B: b})
+		inputs = append(inputs, j)
+		return nil
+	}); err != nil {
+		fmt.Fprintln(os.Stderr, err)
+		return 2
+	}
+	return supervise("lexwork", inputs, *tracesPath, *watchdog, func(in []byte) (string, any) {
+		var li lexIn
+		json.Unmarshal(in, &li) // nolint:errcheck
+		return li.ID, map[string]any{"chunks": li.B.Input, "text": vchars.Concretize(li.B.Input)}
+	}, "lex")
+}
+
 // ---------------------------------------------------------------------------------------------- parse
 
 type parseInput struct {
-	ID     string   `json:"id"`
-	Chunks []string `json:"chunks,omitempty"` // concretised by the chunk table
-	Toks   []string `json:"toks,omitempty"`   // token texts, joined by one blank
-	Text   *string  `json:"text,omitempty"`
-	Lex    bool     `json:"lex,omitempty"` // also record the token stream (kind "lex")
+	ID     string         `json:"id"`
+	Chunks []string       `json:"chunks,omitempty"` // concretised by the chunk table
+	Toks   []string       `json:"toks,omitempty"`   // token texts, joined by one blank
+	Text   *string        `json:"text,omitempty"`
+	Lex    bool           `json:"lex,omitempty"` // also record the token stream (kind "lex")
 	Class  map[string]any `json:"class,omitempty"`
 }
 
@@ -253,8 +278,8 @@ func (r *recTok) note(m string, t token.Token) token.Token {
 	r.toks = append(r.toks, t)
 	return t
 }
-func (r *recTok) NextToken() token.Token                          { return r.note("N", r.l.NextToken()) }
-func (r *recTok) PeekToken() token.Token                          { return r.note("P", r.l.PeekToken()) }
+func (r *recTok) NextToken() token.Token                            { return r.note("N", r.l.NextToken()) }
+func (r *recTok) PeekToken() token.Token                            { return r.note("P", r.l.PeekToken()) }
 func (r *recTok) RegisterCustomTokens(m map[string]token.TokenType) { r.l.RegisterCustomTokens(m) }
 
 var modes = []string{"vcl", "snippet", "either"}
@@ -354,57 +379,51 @@ func parseWorker(args []string) int {
 	return 0
 }
 
-// parseSupervisor feeds the inputs to a child (parsework) one at a time in a pipeline and watches it: a child that
-// dies (fatal error, stack exhaustion) or gives no answer within the watchdog is the observation crash / hang for the
-// input it was working on (confirmed by running that input alone), and a fresh child continues after it.
-func parseSupervisor(args []string) int {
-	fs := flag.NewFlagSet("parse", flag.ExitOnError)
-	tracesPath := fs.String("traces", "", "trace records for C01Trace.tla")
-	watchdog := fs.Duration("watchdog", 20*time.Second, "per-input budget of the child (normal: well under a millisecond)")
-	fs.Parse(args) // nolint:errcheck
+// supervise feeds the inputs to a child (<this binary> <child>) and watches it: a child that dies (fatal error,
+// stack exhaustion) or gives no answer within the watchdog is the observation crash / hang for the input it was
+// working on (confirmed by running that input alone), and a fresh child continues after it.
+const maxFailures = 4
+
+func supervise(child string, inputs [][]byte, tracesPath string, watchdog time.Duration,
+	describe func(in []byte) (id string, input any), stage string) int {
 	out := hx.NewOut()
 	defer out.Close()
-	tf, err := os.Create(*tracesPath)
-	if err != nil {
-		fmt.Fprintln(os.Stderr, err)
-		return 2
-	}
-	defer tf.Close()
-	tbw := bufio.NewWriterSize(tf, 1<<20)
-	defer tbw.Flush()
-	tenc := json.NewEncoder(tbw)
-
-	var inputs [][]byte
-	if err := hx.Lines(func(line []byte) error { inputs = append(inputs, append([]byte{}, line...)); return nil }); err != nil {
-		fmt.Fprintln(os.Stderr, err)
-		return 2
+	var tenc *json.Encoder
+	if tracesPath != "" {
+		tf, err := os.Create(tracesPath)
+		if err != nil {
+			fmt.Fprintln(os.Stderr, err)
+			return 2
+		}
+		defer tf.Close()
+		tbw := bufio.NewWriterSize(tf, 1<<20)
+		defer tbw.Flush()
+		tenc = json.NewEncoder(tbw)
 	}
 	emit := func(wo workOut) {
 		for _, r := range wo.Results {
 			out.Write(r)
 		}
-		for _, t := range wo.Traces {
-			tenc.Encode(t) // nolint:errcheck
+		if tenc != nil {
+			for _, t := range wo.Traces {
+				tenc.Encode(t) // nolint:errcheck
+			}
 		}
 	}
-	// runBatch runs inputs[from:] in one child; returns the index of the first input that was not answered and why
-	runBatch := func(from int, only bool) (next int, failure string) {
-		cmd := exec.Command(os.Args[0], "parsework")
+	// runBatch runs inputs[from:to] in one child; returns the index of the first input that was not answered and why
+	runBatch := func(from, to int) (next int, failure string) {
+		cmd := exec.Command(os.Args[0], child)
 		stdin, _ := cmd.StdinPipe()
 		stdout, _ := cmd.StdoutPipe()
 		cmd.Stderr = io.Discard
 		if err := cmd.Start(); err != nil {
 			return from, "cannot start child: " + err.Error()
 		}
-		to := len(inputs)
-		if only {
-			to = from + 1
-		}
 		go func() {
 			bw := bufio.NewWriterSize(stdin, 1<<16)
 			for i := from; i < to; i++ {
-				bw.Write(inputs[i])   // nolint:errcheck
-				bw.WriteByte('\n')    // nolint:errcheck
+				bw.Write(inputs[i]) // nolint:errcheck
+				bw.WriteByte('\n')  // nolint:errcheck
 			}
 			bw.Flush()
 			stdin.Close()
@@ -422,23 +441,15 @@ func parseSupervisor(args []string) int {
 		for i < to {
 			select {
 			case b, ok := <-lines:
-				if !ok {
-					cmd.Wait() // nolint:errcheck
-					return i, "crash"
-				}
 				var wo workOut
-				if err := json.Unmarshal(b, &wo); err != nil {
+				if !ok || json.Unmarshal(b, &wo) != nil {
 					cmd.Process.Kill() // nolint:errcheck
 					cmd.Wait()         // nolint:errcheck
 					return i, "crash"
 				}
-				if !only {
-					emit(wo)
-				} else {
-					emit(wo) // the input alone answered: the earlier failure was not its own
-				}
+				emit(wo)
 				i++
-			case <-time.After(*watchdog):
+			case <-time.After(watchdog):
 				cmd.Process.Kill() // nolint:errcheck
 				cmd.Wait()         // nolint:errcheck
 				return i, "hang"
@@ -447,32 +458,54 @@ func parseSupervisor(args []string) int {
 		cmd.Wait() // nolint:errcheck
 		return i, ""
 	}
+	failures := 0
 	for i := 0; i < len(inputs); {
-		next, failure := runBatch(i, false)
+		if failures >= maxFailures {
+			// enough evidence: every further hang costs a watchdog period; the rest of the shard is not judged
+			out.Write(hx.CaseResult{ID: fmt.Sprintf("%s-skipped-from-%d", stage, i), Class: map[string]any{"stage": stage},
+				Drift: []map[string]any{{"obs": "inputs-skipped-after-crashes-or-hangs", "skipped": len(inputs) - i}}})
+			break
+		}
+		next, failure := runBatch(i, len(inputs))
 		if failure == "" {
 			break
 		}
-		// attribute: run the unanswered input alone
-		n2, f2 := runBatch(next, true)
-		if f2 != "" && n2 == next {
-			var pi parseInput
-			json.Unmarshal(inputs[next], &pi) // nolint:errcheck
-			src := pi.source()
-			out.Write(hx.CaseResult{ID: pi.ID + "/any", Input: map[string]any{"text": src}, Observed: map[string]any{"outcome": f2},
-				Class: map[string]any{"stage": "parse", "outcome": f2}, Mismatch: []map[string]any{{"obs": "outcome", "got": f2}}})
+		// attribute: run the unanswered input alone; if it answers, the failure was not its own
+		if n2, f2 := runBatch(next, next+1); f2 != "" && n2 == next {
+			failures++
+			id, input := describe(inputs[next])
+			out.Write(hx.CaseResult{ID: id + "/any", Input: input, Observed: map[string]any{"outcome": f2},
+				Class:    map[string]any{"stage": stage, "outcome": f2},
+				Mismatch: []map[string]any{{"obs": "outcome", "outcome": f2}}})
 		}
 		i = next + 1
-		_ = failure
 	}
 	return 0
+}
+
+func parseSupervisor(args []string) int {
+	fs := flag.NewFlagSet("parse", flag.ExitOnError)
+	tracesPath := fs.String("traces", "", "trace records for C01Trace.tla")
+	watchdog := fs.Duration("watchdog", 10*time.Second, "per-input budget of the child (normal: well under a millisecond)")
+	fs.Parse(args) // nolint:errcheck
+	var inputs [][]byte
+	if err := hx.Lines(func(line []byte) error { inputs = append(inputs, append([]byte{}, line...)); return nil }); err != nil {
+		fmt.Fprintln(os.Stderr, err)
+		return 2
+	}
+	return supervise("parsework", inputs, *tracesPath, *watchdog, func(in []byte) (string, any) {
+		var pi parseInput
+		json.Unmarshal(in, &pi) // nolint:errcheck
+		return pi.ID, map[string]any{"text": pi.source()}
+	}, "parse")
 }
 
 // ---------------------------------------------------------------------------------------------- pumpreplay
 
 type pumpDelivered struct {
-	Type    string `json:"type"`
-	Nest    int    `json:"nest"`
-	Empties int    `json:"empties"`
+	Type    string        `json:"type"`
+	Nest    int           `json:"nest"`
+	Empties int           `json:"empties"`
 	Leading []pumpComment `json:"leading"`
 }
 type pumpComment struct {
